@@ -456,6 +456,11 @@ pub fn gen_case_full(c: &mut Chooser, op: &str, prop: &str, small: bool, deep: b
                 // now and then two siblings react (one ends, another one emits)
                 if listen.len() >= 2 && c.chance(1, 2) {
                     pspecs[i].on_stop2 = Some((1, listen[c.choose(listen.len())]));
+                    if c.chance(1, 2) {
+                        // the first sibling does not just emit: it runs to its end
+                        let j = pspecs[i].on_stop.map(|x| x.1).unwrap_or(0);
+                        pspecs[i].on_stop = Some((3, j));
+                    }
                 }
             }
         }
